@@ -1504,8 +1504,40 @@ func (a *Analysis) step(st State, n ast.Node) State {
 					}
 				}
 			}
+			// v, ok := m[k]: v is m[k] (the zero value for an absent key), and without ok it is the zero value
+			var mapIx *Term
+			if ix, isIx := ast.Unparen(x.Rhs[0]).(*ast.IndexExpr); isIx && len(x.Rhs) == 1 && len(x.Lhs) == 2 {
+				if _, isMap := a.Fn.Info.TypeOf(ix.X).Underlying().(*types.Map); isMap {
+					if t := a.term(ix); t != nil && a.Fn.Eng.Canon.PureTerm(t) {
+						mapIx = t
+					}
+				}
+			}
 			for _, l := range x.Lhs {
 				st = a.killLHS(st, l)
+			}
+			if mapIx != nil && st.Reachable() {
+				vid, isV := ast.Unparen(x.Lhs[0]).(*ast.Ident)
+				oid, isO := ast.Unparen(x.Lhs[1]).(*ast.Ident)
+				var vo, oo types.Object
+				if isV && vid.Name != "_" {
+					vo = a.Fn.Info.ObjectOf(vid)
+				}
+				if isO && oid.Name != "_" {
+					oo = a.Fn.Info.ObjectOf(oid)
+				}
+				mentions := func(o types.Object) bool {
+					return o != nil && mapIx.Mentions(func(s *Term) bool { return s.K == 'v' && s.Obj == o })
+				}
+				if vo != nil && !a.Fn.volatile[vo] && !mentions(vo) {
+					st = st.Assume(FEq(Var(vo), mapIx))
+				}
+				if oo != nil && !a.Fn.volatile[oo] && !mentions(oo) {
+					mt, _ := a.Fn.Info.TypeOf(ast.Unparen(x.Rhs[0]).(*ast.IndexExpr).X).Underlying().(*types.Map)
+					if z := zeroFormulaOf(mapIx, mt.Elem()); z != nil {
+						st = Join(st.Assume(FBool(Var(oo))), st.Assume(And(Not(FBool(Var(oo))), z)))
+					}
+				}
 			}
 			if ct != nil && st.Reachable() {
 				for k, l := range x.Lhs {
@@ -1585,8 +1617,14 @@ func (a *Analysis) tupleSite(x *ast.AssignStmt) *InlSite {
 	return nil
 }
 
-func zeroFormula(v *Term) *Formula {
-	switch u := v.Typ.Underlying().(type) {
+func zeroFormula(v *Term) *Formula { return zeroFormulaOf(v, v.Typ) }
+
+// zeroFormulaOf: v has the zero value of type t.
+func zeroFormulaOf(v *Term, t types.Type) *Formula {
+	if t == nil {
+		return nil
+	}
+	switch u := t.Underlying().(type) {
 	case *types.Pointer, *types.Slice, *types.Map, *types.Interface, *types.Signature, *types.Chan:
 		return FNil(v)
 	case *types.Basic:
